@@ -63,7 +63,8 @@ def gen_plan(rng, tier, index):
                       'straggler': rng.pick([None, None, 0, 1, 5]), 'seed': rng.randrange(10 ** 9)},
             'n_models': rng.randint(1, 2), 'eval_method': rng.pick(['corr', 'cosine', 'spearman']),
             'n_centers_big': rng.pick([999, 1000, 1001, 1002, 1100, 1331, 2003]), 'n_vox_big': rng.randint(6, 40),
-            'dtype': rng.pick(['float64', 'float64', 'float32', 'int64', 'int16'])}
+            'dtype': rng.pick(['float64', 'float64', 'float32', 'int64', 'int16']),
+            'mask_layout': rng.pick(['C', 'C', 'F', 'T']), 'centre_pick': rng.pick(['all', 'all', 'subset', 'permuted'])}
     return plan
 
 
@@ -272,6 +273,11 @@ def execute(plan, ctx):
         return
     shape = plan['shape']
     mask = np.array(plan['bits']).reshape(shape).astype(bool)
+    lay = plan.get('mask_layout', 'C')
+    if lay == 'F':
+        mask = np.asfortranarray(mask)                      # same values, Fortran memory order
+    elif lay == 'T':
+        mask = np.ascontiguousarray(mask.transpose(2, 1, 0)).transpose(2, 1, 0)      # a transposed view
     res = check_geometry(ctx, mask, plan['radius'], plan['threshold'])
     shape_class = 'x'.join(str(min(s, 4)) for s in shape)
     if mode == 'geom' or res is None:
@@ -299,7 +305,14 @@ def execute(plan, ctx):
     if len(ok) < 2:
         ctx.behaviour('eval', 'too-few-evaluable', shape_class)
         return
+    pick = plan.get('centre_pick', 'all')
+    if pick == 'subset' and len(ok) > 3:
+        ok = ok[::2] + ok[1:2]          # some centres only (the RDMs object then carries non-contiguous index values)
+        ok = sorted(set(ok))
     sl_ok = sl.subset('index', ok) if len(ok) < sl.n_rdm else sl
+    if pick == 'permuted' and sl_ok.n_rdm > 2:
+        perm = list(range(sl_ok.n_rdm))[::-1]
+        sl_ok = sl_ok[perm]            # centres in another order
     fp_before = (_fp(sl_ok), [_fp(m.rdm_obj) for m in models])
     em = plan['eval_method']
     reference = []
